@@ -5,9 +5,10 @@ From Coq Require Import Permutation.
 Open Scope N_scope.
 
 (* No loss, no duplication by the data structures: for every worker count, queue capacity, task
-   multiset and every interleaving of submit / pop_local / global pop / steal / balance / finish
-   (before and after the pop_local repair), queued + running + executed is exactly the multiset of
-   accepted tasks. *)
+   multiset and every interleaving of submit / pop_local / global pop / steal / balance / finish -
+   including the single critical sections pop_local() and steal() consist of (PopOwnSteal, StealQ,
+   StealL) and submissions that lose the capacity race - before and after the pop_local repair,
+   queued + running + executed is exactly the multiset of accepted tasks. *)
 Theorem conservation :
   forall fixed cap nw steps e acc,
     run fixed cap (init nw) [] steps = (e, acc) ->
